@@ -184,6 +184,28 @@ func multiDefectCases(runs int) []c08Case {
 	}
 }
 
+// importHeavyConfigs: valid configurations in which every order-sensitive map has several entries and
+// each entry pulls a package that has not been used before, so that any unsorted traversal changes the
+// numbering of the import aliases (and therefore the bytes of the output).
+func importHeavyConfigs() []cfg.Config {
+	pk := []string{"fx/lib", "fx/libx", "fx/lib/sub", "fx/a/lib", "fx/b/lib", "fx/my-lib.v2", "fx/os", "fx/fmt", "fx/errors", "fx/context", "fx/reflect", "fx/strconv"}
+	q := func(p string) string { return `"` + p + `"` }
+	fieldsOnly := cfg.Config{Meta: cfg.Meta{Pkg: sp("app")}, Services: []cfg.Service{{Name: "s", Ctor: sp("NewObj"), Fields: []cfg.Field{
+		{Name: "FieldA", Val: cfg.Str("!value " + q(pk[0]) + ".ID")}, {Name: "FieldB", Val: cfg.Str("!value " + q(pk[1]) + ".ID")}, {Name: "fieldC", Val: cfg.Str("!value " + q(pk[2]) + ".ID")}}}}}
+	all := cfg.Config{Meta: cfg.Meta{Pkg: sp("app"),
+		Imports:   []cfg.KV{{K: "z", V: pk[3]}, {K: "a", V: pk[4]}, {K: "m", V: pk[5]}},
+		Functions: []cfg.KV{{K: "zf", V: q(pk[6]) + ".Echo"}, {K: "af", V: q(pk[7]) + ".Echo"}, {K: "mf", V: q(pk[8]) + ".Echo"}}},
+		Params: []cfg.Param{{Name: "zp", Val: cfg.Str("%zf(1)%")}, {Name: "ap", Val: cfg.Str("%af(1)%")}, {Name: "mp", Val: cfg.Str("%mf(1)%")}},
+		Services: []cfg.Service{
+			{Name: "zs", Ctor: sp("z.NewObj"), Fields: []cfg.Field{{Name: "FieldB", Val: cfg.Str("!value " + q(pk[9]) + ".ID")}, {Name: "FieldA", Val: cfg.Str("!value " + q(pk[10]) + ".ID")}}, Tags: []cfg.Tag{{Name: "zt"}, {Name: "at"}, {Name: "mt"}}},
+			{Name: "as", Ctor: sp("a.NewObj"), Args: []cfg.Val{cfg.Str("!value " + q(pk[11]) + ".ID")}, Tags: []cfg.Tag{{Name: "mt", Prio: 2}, {Name: "at", Prio: 1}}},
+			{Name: "ms", Value: sp("m.GlobalObj"), Getter: sp("GetM"), Type: sp("*m.Obj")},
+		},
+		Decorators: []cfg.Decorator{{Tag: "zt", Fn: q(pk[0]) + ".Decorate"}, {Tag: "at", Fn: q(pk[1]) + ".Decorate"}, {Tag: "mt", Fn: q(pk[2]) + ".Decorate"}},
+	}
+	return []cfg.Config{fieldsOnly, all}
+}
+
 func TestC08(t *testing.T) {
 	col := ev.Get()
 	runs := pick(6, 20)
@@ -205,7 +227,13 @@ func TestC08(t *testing.T) {
 			c08Eval(t, c)
 		}
 	}
-	setRapidChecks(pick(14, 120))
+	for i, c := range importHeavyConfigs() {
+		if ev.Mine(i + 3) {
+			conf := c
+			c08Eval(t, c08Case{Conf: &conf, Runs: runs + 6, Perms: perms + 4, Labels: []string{"valid:every-map-entry-pulls-a-new-import"}})
+		}
+	}
+	setRapidChecks(pick(24, 160))
 	opts := gen.All()
 	opts.PkgMain = true
 	rapid.Check(t, func(rt *rapid.T) {
